@@ -432,6 +432,7 @@ class C20(Prop):
                 if op == "jsx_tagify":
                     t = x.tagify()
                     s = t.get_html_string()
+                    ev["_result"] = t
                     if out is None:
                         out = t
                 else:
@@ -439,8 +440,10 @@ class C20(Prop):
                 ev["res"] = purity.digest(s)
             except Exception as ex:  # noqa
                 ev["res"] = "EXC:" + type(ex).__name__
-            heap, rs = p.snapshot([x])
-            ev["heap"], ev["roots"] = heap, rs
+            res_obj = ev.pop("_result", None)
+            heap, rs = p.snapshot([x] + ([res_obj] if res_obj is not None else []))
+            ev["heap"], ev["roots"] = heap, rs[:1]
+            ev["newroot"] = rs[1] if res_obj is not None else 0
             events.append(ev)
         recs = [{"k": "hist", "heap0": heap0, "roots0": roots0, "events": events, "gen": g, "_module": "HeapTrace"}]
         conv = {"k": "conv", "tree": tree, "parsed": False, "expr": {"e": "str", "name": [], "quoted": False, "props": [], "kids": [], "t": []},
